@@ -276,7 +276,7 @@ DeleteCalc(ptrs, a, b, so, eo) ==
          eo1 == ClampSz(eo0, ep.sz)
      IN IF sd > ed /\ (sd # ed + 1 \/ so1 # 0 \/ eo1 # 0) THEN [c |-> "error", ptrs |-> ptrs]
         ELSE IF sd = ed /\ so1 + eo1 > sp.sz THEN [c |-> "error", ptrs |-> ptrs]
-        ELSE IF (sd = ed - 1 /\ so1 = ep.sz /\ eo1 = ep.sz) \/ (sd = ed /\ so1 + eo1 = sp.sz)
+        ELSE IF (sd = ed - 1 /\ so1 = sp.sz /\ eo1 = ep.sz) \/ (sd = ed /\ so1 + eo1 = sp.sz)
              THEN [c |-> "ok", ptrs |-> ptrs]
         ELSE LET keepS == IF so1 # 0 THEN <<Ptr(sp.s, trS, sp.f, sp.off, so1)>> ELSE <<>>
                  keepE == IF eo1 # 0 THEN <<Ptr(trE, ep.e, ep.f, ep.off + ep.sz - eo1, eo1)>> ELSE <<>>
